@@ -227,6 +227,68 @@ def binop (op : BinOp) (l r : Value N) (st : State N) : Except Err (Value N) × 
       | .giveUp => (.error (.unmodelled "deep comparison"), st)
     | _ => (.error (.internal "binop"), st)
 
+/-! ### `Array::ToString` / `Dictionary::ToString` = ConfigWriter::EmitArray / EmitScope (lib/base/configwriter.cpp:31-135).
+    The C++ recursion has no cycle check (finding F-C15c); the model gives up (`none`) beyond depth `fuel`. -/
+
+def cwKeywords : List String :=
+  ["object", "template", "include", "include_recursive", "include_zones", "library", "null", "true", "false", "const", "var",
+   "this", "globals", "locals", "use", "using", "namespace", "default", "ignore_on_error", "current_filename", "current_line",
+   "apply", "to", "where", "import", "assign", "ignore", "function", "return", "break", "continue", "for", "if", "else",
+   "while", "throw", "try", "except"]
+
+/-- configwriter.cpp:189-199 -/
+def escapeIcingaString (s : String) : String :=
+  String.ofList (s.toList.flatMap fun c =>
+    if c == '\\' then ['\\', '\\'] else if c == '\n' then ['\\', 'n'] else if c == '\t' then ['\\', 't']
+    else if c == '\r' then ['\\', 'r'] else if c == Char.ofNat 8 then ['\\', 'b'] else if c == Char.ofNat 12 then ['\\', 'f']
+    else if c == '"' then ['\\', '"'] else [c])
+
+def emitString (s : String) : String := "\"" ++ escapeIcingaString s ++ "\""
+
+def isIdentifier (s : String) : Bool :=
+  match s.toList with
+  | [] => false
+  | c :: r => (c.isAlpha || c == '_') && r.all fun d => d.isAlphanum || d == '_'
+
+/-- configwriter.cpp:128-154 with inAssignment = true -/
+def emitIdentifier (s : String) : String :=
+  if cwKeywords.contains s then "@" ++ s else if isIdentifier s then s else emitString s
+
+def indent (n : Nat) : String := String.ofList (List.replicate n '\t')
+
+def joinOpt (sep : String) : List (Option String) → Option String
+  | [] => some ""
+  | [x] => x
+  | x :: r => match x, joinOpt sep r with | some a, some b => some (a ++ sep ++ b) | _, _ => none
+
+def emitValue : Nat → State N → Nat → Value N → Option String
+  | 0, _, _, _ => none
+  | f + 1, st, lvl, v =>
+    match v with
+    | .arr a =>
+      match st.arr? a with
+      | some xs =>
+        (joinOpt ", " (xs.map (emitValue f st lvl))).map fun body => "[ " ++ body ++ (if xs.isEmpty then "" else " ") ++ "]"
+      | none => none
+    | .dict a =>
+      match st.dict? a with
+      | some kvs =>
+        (joinOpt "" (kvs.map fun kv =>
+          (emitValue f st (lvl + 1) kv.2).map fun x => "\n" ++ indent lvl ++ emitIdentifier kv.1 ++ " = " ++ x)).map
+          fun body => "{" ++ body ++ "\n" ++ indent (lvl - 1) ++ "}"
+      | none => none
+    | .str s => some (emitString s)
+    | .num n => some (Num.toFixed n)
+    | .bool b => some (if b then "true" else "false")
+    | .empty => some "null"
+    | _ => some ""                                   -- other objects: no branch of EmitValue applies
+
+/-- `operator String()` of any value (value-operators.cpp:38-60 + Object::ToString overrides). -/
+def toStrH (st : State N) (v : Value N) : Option String :=
+  match v with
+  | .arr _ | .dict _ => emitValue 40 st 1 v
+  | v => some v.toStr
+
 /-! ### field access -/
 
 /-- `Convert::ToLong(String)` = boost::lexical_cast<long>: optional sign, at least one digit, nothing else. -/
@@ -330,7 +392,8 @@ def setField (st : State N) (ctx : Value N) (field : String) (v : Value N) : Exc
     | none => .error (.internal "setField dict")
     | some kvs => .ok (st.put a (.dict (kvSet field v kvs)))
   | .ns => .ok { st with globals := kvSet field v st.globals }
-  | .fn _ | .native _ | .typ _ | .sysns => .error (.unmodelled "set field of Function/Type/System")
+  | .sysns => .error (.script .frozen "Namespace is read-only and must not be modified.")    -- namespace.cpp:52-54
+  | .fn _ | .native _ | .typ _ => .error (.unmodelled "set field of Function/Type")
 
 end
 
